@@ -134,7 +134,7 @@ def canon(line):
         seg = _ROWS.sub(srt, seg)
         if seg.startswith("size:"):
             seg = "ok"                 # file size is not part of the reference; oracles read it from the raw line
-        if seg.startswith("err:") and seg != "err:panic":
+        if seg.startswith("err:") and seg not in ("err:panic", "err:overflowframe"):
             seg = "err"
         out.append(seg)
     return " | ".join(out)
